@@ -386,6 +386,60 @@ for s_i in range(nsetups):
                 if not np.array_equal(rw.scattering_angles_dict[path], rg.signed_inc_angle(-1), equal_nan=True):
                     chk.violation("views:scat-angle", f"scattering angles of path {name} are not signed_inc_angle(-1)", dict(setup=s_i, stage=stage, path=name))
 
+# ---- (a2'') the weights of a ray do not depend on HOW MANY rays are stored with it nor on their memory order:
+#      an image-sized target set (more points than a 16-bit index can address) against the same targets traced a few at a
+#      time, and Fortran-ordered rays (ray_tracing(convert_to_fortran_order=True), what the TFM functions ask for)
+#      against C-ordered ones
+import copy as _copy
+for s_i in range(1 if Q else 4):
+    big = s_i % 2 == 0
+    numscat_ = int(rng.integers(33500, 36000)) if big else int(rng.integers(5, 40))
+    setup = arimgen.immersion_setup(rng, numelements=int(rng.integers(2, 4)), numscat=numscat_, max_refl=1, wall_points=int(rng.integers(30, 60)), attenuation=True)
+    couplant, block, paths = setup["couplant"], setup["block"], setup["paths"]
+    freq, width = setup["freq"], float(rng.uniform(0.2e-3, 1.0e-3))
+    names = [n_ for n_ in paths][:]
+    names = [names[i] for i in rng.permutation(len(names))[:(3 if Q else 6)]]
+    # the same targets, a few at a time (taken at both ends and in the middle of the stored set)
+    pick_ = np.unique(np.concatenate([np.arange(0, 3), rng.integers(0, numscat_, 6), np.arange(numscat_ - 4, numscat_)]).clip(0, numscat_ - 1))
+    sc_full = setup["scat"]
+    sub_pts = arim.Points(np.array(sc_full.points.coords[pick_]), "Scatterers")
+    sub_scat = arim.geometry.OrientedPoints(sub_pts, arim.geometry.default_orientations(sub_pts))
+    itf_sub = bim.make_interfaces(couplant, setup["probe_op"], setup["frontwall"], setup["backwall"], sub_scat)
+    paths_sub = bim.make_paths(block, couplant, itf_sub, max_number_of_reflection=1)
+    arim.ray.ray_tracing_for_paths([paths_sub[n_] for n_ in names])
+    for name in names:
+        path = paths[name]
+        variants = {"few-at-a-time": (paths_sub[name], pick_)}
+        pf = _copy.copy(path)
+        pf.rays = path.rays.to_fortran_order()
+        variants["fortran-ordered rays"] = (pf, None)
+        rg = arim.ray.RayGeometry.from_path(path)
+        for side, fn in (("tx", bim.tx_ray_weights), ("rx", bim.rx_ray_weights)):
+            ref = call_weights(fn, path, rg, freq, width, SWITCHES[0])
+            if isinstance(ref, Exception):
+                continue
+            for vname, (p2, cols) in variants.items():
+                got = call_weights(fn, p2, arim.ray.RayGeometry.from_path(p2), freq, width, SWITCHES[0])
+                evaluations += 1
+                chk.count(ray_storage=vname + (" / image-sized set" if big else ""))
+                bad_ = isinstance(got, Exception)
+                fac_ = None
+                if not bad_:
+                    for fac_ in ("weights",) + FACTORS:
+                        a_ = np.asarray(ref[0] if fac_ == "weights" else ref[1][fac_])
+                        b_ = np.asarray(got[0] if fac_ == "weights" else got[1][fac_])
+                        a_ = a_ if cols is None else a_[:, cols]
+                        if a_.shape != b_.shape or not np.allclose(a_, b_, rtol=1e-11, atol=0, equal_nan=True):
+                            bad_ = True
+                            break
+                if bad_:
+                    chk.violation(f"storage:{side}:{vname.split()[0]}", f"{side} ray weights of path {name} ({'factor ' + str(fac_) if not isinstance(got, Exception) else repr(got)}) "
+                                  f"differ between the stored rays ({numscat_} targets, C order) and the same rays stored as: {vname}",
+                                  dict(path=name, numscat=numscat_, variant=vname, targets_compared=None if cols is None else cols,
+                                       frequency=freq, width=width, how="arimgen.immersion_setup(numscat=numscat, max_refl=1, attenuation=True); seed and tier replay it"))
+                    break
+    nontrivial.add(("storage", s_i))
+
 # ---- (a2') probe_element_width=None: ValueError iff the directivity is enabled -------------------
 for _ in range(3 if Q else 20):
     geom = None
